@@ -32,6 +32,9 @@ TRUSTED = ["arithmetic theorems are for the exact rational semantics; the driver
 ASSUMPTIONS = ["Decimal arithmetic = exact result rounded half-even to 35 digits",
                "pool data rows carry Decimal amounts/liquidity (as load_uni_v3_data produces) or Python ints",
                "bar 0 has no previous bar: its path starts at its own close (DESIGN.md decision)",
+               "run-level theorems (C08_run_fees*): the market is fresh at the start of the run and every data row has currentLiquidity > 0; the "
+               "other side conditions (lower < upper, liquidity >= 0, pool + own != 0) are proved invariant (Proofs/C08/Range*.lean, Run.lean) "
+               "and observed on the implementation's states",
                "pool + own liquidity stays below 1e35: beyond 35 digits Python's sum() over a mix of int and Decimal liquidities rounds after every "
                "addition while the model rounds the exact total once (last-digit difference; such states are counted and the refreshed "
                "currentLiquidity is not compared)"]
